@@ -554,14 +554,16 @@ func (m *Manager) cleanUp() []peer.ID {
 		if time.Since(p.createdAt) > m.params.PoolValidationTimeout {
 			delete(m.pools, h)
 
+			// the pool may still be receiving peers from Validate: take its peers under its lock
+			peers := p.peers()
 			log.Debug("blacklisting datahash with all corresponding peers",
 				"hash", h,
-				"peer_list", p.peersList)
+				"peer_list", peers)
 			// blacklist hash
 			m.blacklistedHashes.Add(h, struct{}{})
 
 			// blacklist peers
-			for _, peer := range p.peersList {
+			for _, peer := range peers {
 				addToBlackList[peer] = struct{}{}
 			}
 		}
